@@ -94,6 +94,17 @@ CHECK_DEADLOCK FALSE
     return res, progs
 
 
+def gen_trees(ctx):
+    """EvmTreeGen: factories that CREATE two different init codes with jumps, parents with two sibling sub calls."""
+    res = ctx.tlc("EvmTreeGen", cfg="EvmTreeGen.cfg", workers=2, timeout=600)
+    trees = []
+    for raw in ctx.tlc_lines(res, "TREE"):
+        trees.append(json.loads(raw.strip()[1:-1].replace('\\"', '"')))
+    if not trees:
+        raise Inconclusive("EvmTreeGen produced no call trees")
+    return res, trees
+
+
 def run(ctx):
     quick = ctx.quick()
     # 1+2. design level, concurrently with the harness build
@@ -113,12 +124,17 @@ def run(ctx):
     gen = {}
     jobs.append(lambda: gen.setdefault("r", gen_programs(ctx, 30 if quick else 600, 14)))
     jobs.append(lambda: gen.setdefault("j", gen_jump_sweep(ctx, range(8) if quick else range(64))))
+    jobs.append(lambda: gen.setdefault("t", gen_trees(ctx)))
     threads(jobs)
     drv = built["drv"]
     genres, progs = gen["r"]
     jumpres, jprogs = gen["j"]
     log("EvmGen: %d programs; EvmJumpGen: %d jump-destination cases" % (len(progs), len(jprogs)))
     progs = progs + jprogs
+    treeres, trees = gen["t"]
+    if quick:  # every factory, every third sibling tree
+        trees = [t for t in trees if t["fam"] == "factory"] + [t for t in trees if t["fam"] != "factory"][ctx.seed % 3::3]
+    log("EvmTreeGen: %d call trees" % len(trees))
 
     # 4. real runs
     shards = 4 if quick else 16
@@ -130,12 +146,14 @@ def run(ctx):
         json.dump(progs[k::shards], open(sp, "w"))
         tp = os.path.join(ctx.scratch, "trace%d.ndjson" % k)
         traces.append(tp)
-        argvs.append([drv, "--out", tp, "--scratch", os.path.join(ctx.scratch, "st%d" % k), "--script", sp,
+        tsp = os.path.join(ctx.scratch, "trees%d.json" % k)
+        json.dump(trees[k::shards], open(tsp, "w"))
+        argvs.append([drv, "--out", tp, "--scratch", os.path.join(ctx.scratch, "st%d" % k), "--script", sp, "--trees", tsp,
                       "--programs", str(nprog), "--snippets", "12", "--salt", str(k),
                       "--vectors", os.path.join(REPO, "src/vm/testdata"), "--vecperfile", str(perfile),
                       "--shard", str(k), "--shards", str(shards), "--matrix", "quick" if quick else "full", "--exp", str((1 if k < 2 else 0) if quick else 4)])
     outs = ctx.run_parallel(argvs, timeout=900)
-    tot = {"programs": 0, "steps": 0, "events": 0, "vectors": 0, "tlc_programs": 0, "matrix_programs": 0, "truncated_runs": 0}
+    tot = {"programs": 0, "steps": 0, "events": 0, "vectors": 0, "tlc_programs": 0, "matrix_programs": 0, "truncated_runs": 0, "tree_programs": 0}
     ops, faults = {}, {}
     for o in outs:
         for line in o.splitlines():
@@ -180,10 +198,11 @@ def run(ctx):
         "states": states,
         "transitions": sum(r["generated"] for r in mc.values()) + genres["generated"] + jumpres["generated"],
         "jump_destination_sweep_cases": len(jprogs),
+        "call_trees": tot["tree_programs"],
         "traces_validated_against_impl": tot["programs"],
         "events_validated": total_events,
         "interpreter_steps_recorded": tot["steps"],
-        "generated_programs": tot["programs"] - tot["vectors"] - tot["tlc_programs"] - tot["matrix_programs"],
+        "generated_programs": tot["programs"] - tot["vectors"] - tot["tlc_programs"] - tot["matrix_programs"] - tot["tree_programs"],
         "boundary_matrix_programs": tot["matrix_programs"],
         "tlc_generated_programs": tot["tlc_programs"],
         "repository_vectors": tot["vectors"],
@@ -202,6 +221,6 @@ def run(ctx):
         "jump table of the dev configuration at height 100 (proposals 014/022 active, 026 inactive: BootServices raises Proposal026Block); process-global common.LocalChainConfig is a fixed configuration",
         "gas is ample (400 000) in C10 runs: an out-of-gas fault is accepted only for a memory requirement above 64 KiB; gas itself is C11's subject",
         "KECCAK256 is computed by the harness (x/crypto) over the memory slice, which the monitor compares with the slice the reference selects",
-        "CALL to the identity precompile is used to fill the return data buffer; the CALL step itself is outside the computational set and not judged",
+        "call instructions and CREATE are outside the computational set: their own step is not judged, but every callee frame is judged like the outermost one, from the initial machine state with its own code and input (call trees: 30 000 000 gas, because a faulting callee takes 63/64 of it)",
         "stack overflow at 1024 items is exercised by C11 (no value images)",
     ])
